@@ -1,6 +1,6 @@
 """C13 - conversion functions are mutually consistent and round-trip through strings."""
 import os
-from lib import driver as D
+from lib import driver as D, machine as M
 
 MUTANTS = ["convertsIgnoresTo", "toIntegerAcceptsDecimalString", "toDecimalAcceptsExponent", "toDateKeepsTime"]
 # programs per case: to, conv, toto, strto (+ strconv when x is already of type T), + receiver alone + receiver.toString()
@@ -45,6 +45,8 @@ def run(ctx):
     by_id = {o["id"]: o for o in obs}
     keys = [(o["prog"], o["T"], o["sk"], o["fk"], o["x"]["t"], o["out"]["k"], len(o["out"].get("items", []))) for o in obs]
     step = max(1, len(obs) // 5)
+    # programs of the whole abstract machine whose last step is one of this property's operations (lib/machine.py)
+    verdicts = M.extend(ctx, verdicts, by_id)
     return D.finish(
         ctx, verdicts, by_id, evaluations=len(obs) + 2 * (n_tlc + len(seeded)),
         rule="every pool item (all System types, precisions, boundaries; %d strings of the valid/near-valid grammar pool) as literal, "
